@@ -10,6 +10,7 @@ mod observe;
 mod pairs;
 mod props;
 mod refcodec;
+mod rope_mc;
 mod term;
 mod tree_checks;
 mod trees;
@@ -84,6 +85,7 @@ fn meta(prop: &str) -> Meta {
     "C10" => Meta { level: "model_checking", rule: "one state per call history over (original, clone) handles; evaluation = history ending in a call; non-trivial = >= 2 cache-relevant calls (map/stream/hash)", assumptions: &["bounded depth, alphabet and pool of wrapped trees (coverage.bounds)", "reference = fresh never-cached build of the wrapped tree; wrapped trees contain no CachedSource beneath a ReplaceSource", "cache contents read through the guarded hook CachedSource::verif_cache_snapshot"], workers: 16 },
     "C14" => Meta { level: "model_checking", rule: "states = pool trees + their single-edit neighbours; evaluation = (pair, left observer prefix, right observer prefix); non-trivial = at least two observer calls before comparing", assumptions: &["bounded pool, prefixes of <= 2 observer calls (twins) / <= 1 (neighbours)", "observer answers compared as text, bytes, size and per-position attribution", "trees with a CachedSource beneath a ReplaceSource are excluded (history-dependent chunking, DESIGN section 6)"], workers: 16 },
     "C20" => Meta { level: "model_checking", rule: "states = pool trees + edited trees; evaluation = pair (base, single edit) or (base, independent tree) or (tree, observer prefix); non-trivial = the pair differs in source(), buffer() or map()", assumptions: &["bounded pool; every single edit of the listed kinds at every node", "64-bit collisions are counted as violations (none expected at this scale)", "SourceMapSource name and debugId edits are excluded (statement / reading 6.3)"], workers: 16 },
+    "C16" => Meta { level: "model_checking", rule: "states = distinct rope piece structures reached by BFS; evaluations = states (all unary observers, every slice range) + ordered pairs (binary observers); non-trivial = multi-piece rope of >= 2 bytes", assumptions: &["bounded piece alphabet and program depth (coverage.bounds)", "reference model: the flat String; lines() = split after every line break plus a final empty line when the text is empty or ends in a line break", "Hash of Rope is not part of the statement and is not compared"], workers: 16 },
     "C11" => Meta { level: "model_checking", rule: "one case per distinct term; non-trivial = some map() has >= 2 segments", assumptions: tree_assume, workers: 16 },
     _ => panic!("unknown property {prop}"),
   }
@@ -97,6 +99,7 @@ fn run_worker(prop: &str, tier: &str, k: usize, n: usize, ctx: &mut Ctx) {
     "C08" => c08::worker(tier, k, n, ctx),
     "C09" => c09::worker(tier, k, n, ctx),
     "C05" => hist::c05_worker(tier, k, n, ctx),
+    "C16" => rope_mc::worker(tier, k, n, ctx),
     "C14" => pairs::c14_worker(tier, k, n, ctx),
     "C20" => pairs::c20_worker(tier, k, n, ctx),
     "C10" => hist::c10_worker(tier, k, n, ctx),
@@ -112,6 +115,7 @@ fn bounds(prop: &str, tier: &str) -> Value {
     "C08" => c08::bounds(tier),
     "C09" => c09::bounds(tier),
     "C05" => hist::c05_bounds(tier),
+    "C16" => rope_mc::bounds(tier),
     "C14" => pairs::c14_bounds(tier),
     "C20" => pairs::c20_bounds(tier),
     "C10" => hist::c10_bounds(tier),
